@@ -1740,3 +1740,19 @@ def range_closure(sd: "SD", rule: str):
     run.ob(rule, f"{build.qual}:refuses-no-decoded-entry", hit is None, loc(build),
            f"none of the {len(raising)} refusing path(s) of build() is reachable with field values the decoder produces ({n_eval} points)" if hit is None else
            f"build() raises {hit[0].outcome[1]} for an entry the decoder accepts, e.g. {hit[1]}: a decoded message cannot be encoded again")
+
+
+def codec_keeps(run, prog, tier, rule, picks, what):
+    """supporting obligations taken from C02's codec rules: what send_sd hands to SOMEIPSDHeader(..).assign_option_indexes()
+    .build() - and what parse() / resolve_options() hand to the receive path - is the same header: same flags, same
+    entries in the same order"""
+    from .. import report
+    from . import C02
+    sub = report.subrun(C02, "C02", prog, tier, run.seed)
+    n = 0
+    for o in sub.obs:
+        if o.rule != "OM" and any(k in o.construct for k in picks):
+            n += 1
+            run.ob(rule, o.construct, o.ok, o.loc, o.msg + ("" if o.ok else f" [{what}]"), o.detail, o.nontrivial)
+    run.floor(rule, n, len(picks))
+    run.paths += sub.paths
